@@ -14,9 +14,19 @@
    field values.  MaxSumMessage / Mgm2OfferMessage / AlgorithmDef / ExpressionFunction / AgentDef /
    VariableWithCostDict / ordered-graph node reprs are in the model and tied to the code by the
    correspondence run; only concrete instances are theorems here.  That each pyDCOP class follows the
-   mixin convention ([safe]'s KGeneric condition) is checked class by class by the enumeration run. *)
-From PyDcop Require Import Base M_AgentDef M_Repr P_Repr.
+   mixin convention ([safe]'s KGeneric condition) is checked class by class by the enumeration run.
+
+   DEEPENING (P_Repr2/3/4.v): the exclusion is removed.  [generic_roundtrip] holds for every value
+   satisfying the explicit well-formedness predicate [wf] (P_Repr3.v), which extends [safe] with
+   tuples (any length: the tuple-dict decode with int(str i) = i and the sort), namedtuples, the
+   generic classes whose constructor converts an argument (Domain.values -> tuple, Link /
+   ConstraintLink.nodes -> frozenset) and EVERY hand-written repr, nested to any depth.  One
+   corollary per hand-written repr states the round trip for all contents meeting that class's
+   condition, and the ComputationDef of each of the four graph models is covered for all variables,
+   constraints, links and algorithm definitions that are themselves well-formed. *)
+From PyDcop Require Import Base M_AgentDef M_Repr P_Repr P_Repr2 P_Repr3 P_Repr4.
 Open Scope string_scope.
+Open Scope list_scope.
 
 Theorem generic_roundtrip_partial : forall nan v, safe nan v = true -> wire nan v = Ok v.
 Proof. exact generic_roundtrip_partial_l. Qed.
@@ -94,3 +104,139 @@ Example c15_nonvacuous :
                                                 [("a", PList [PInt 1; PNone]); ("b", PBool true)])])] in
   safe false v = true /\ wire false v = Ok v.
 Proof. vm_compute. split; reflexivity. Qed.
+
+(* ================= deepening: the general theorem ================= *)
+(* the two arithmetic facts behind the tuple decode *)
+Theorem int_of_str_of_int : forall z, Z_of_str (str_of_Z z) = Some z.
+Proof. exact int_of_str_of_int_l. Qed.
+
+Theorem sort_increasing_is_identity : forall (A : Type) (l : list (Z * A)),
+  strictly_increasing (map fst l) = true -> isort (fun a b => Z.leb (fst a) (fst b)) l = l.
+Proof. exact sort_increasing_is_identity_l. Qed.
+
+(* every well-formed value survives the wire: scalars, lists, tuples, string-keyed dicts, namedtuples,
+   message_type messages, generic SimpleRepr classes (incl. Domain / Link / ConstraintLink) and all
+   hand-written reprs, nested to any depth and width *)
+Theorem generic_roundtrip : forall nan v, wf nan v = true -> wire nan v = Ok v.
+Proof. exact generic_roundtrip_l. Qed.
+
+(* it subsumes generic_roundtrip_partial, and tuples / namedtuples are no longer excluded *)
+Theorem wf_extends_safe : forall nan v, safe nan v = true -> wf nan v = true.
+Proof. exact wf_extends_safe_l. Qed.
+
+Theorem roundtrip_tuple : forall nan l,
+  (forall x, In x l -> wf nan x = true) -> wire nan (PTuple l) = Ok (PTuple l).
+Proof. exact roundtrip_tuple_l. Qed.
+
+(* ================= one theorem per hand-written repr ================= *)
+(* MaxSumMessage: non-empty costs, scalar keys pairwise distinct, JSON-native values *)
+Theorem roundtrip_maxsum_message : forall nan costs,
+  maxsum_ok nan costs = true -> wire nan (maxsum_msg costs) = Ok (maxsum_msg costs).
+Proof. exact roundtrip_maxsum_message_l. Qed.
+
+(* Mgm2OfferMessage: offers keyed by tuples of JSON-native values; non-empty offers only when offering
+   (otherwise mgm2_fake_offer_drops_offers_refuted) *)
+Theorem roundtrip_mgm2_offer_message : forall nan offers b,
+  mgm2_ok nan offers (PBool b) = true -> wire nan (mgm2_offer offers b) = Ok (mgm2_offer offers b).
+Proof. exact roundtrip_mgm2_offer_message_l. Qed.
+
+(* AlgorithmDef: params is decoded raw, so it must be JSON-native (string-keyed dict of scalars/lists) *)
+Theorem roundtrip_algorithm_def : forall nan algo params mode,
+  wf nan algo = true -> plain nan params = true -> wf nan mode = true ->
+  wire nan (algo_def algo params mode) = Ok (algo_def algo params mode).
+Proof. exact roundtrip_algorithm_def_l. Qed.
+
+Theorem roundtrip_expression_function : forall nan expression source_file fixed_vars,
+  wf nan expression = true -> wf nan source_file = true -> plain nan fixed_vars = true ->
+  wire nan (expr_fn expression source_file fixed_vars) = Ok (expr_fn expression source_file fixed_vars).
+Proof. exact roundtrip_expression_function_l. Qed.
+
+(* AgentDef through the wire (repaired code): extra attribute names distinct from each other, from the
+   five named parameters and from the reserved keys *)
+Theorem roundtrip_agentdef_wire : forall nan name dr routes dh hosting attrs,
+  wf nan name = true -> wf nan dr = true -> wf nan routes = true -> not_none routes = true ->
+  wf nan dh = true -> wf nan hosting = true -> not_none hosting = true ->
+  names_ok (AGENT_NAMED ++ map fst attrs) = true -> forallb (fun nv => wf nan (snd nv)) attrs = true ->
+  wire nan (agent_obj name dr routes dh hosting attrs) = Ok (agent_obj name dr routes dh hosting attrs).
+Proof. exact roundtrip_agentdef_wire_l. Qed.
+
+(* ... and the decoded agent of C31's record answers route / hosting_cost / attributes alike *)
+Theorem agentdef_wire_keeps_costs : forall nan a b,
+  zkeys_ok (a_routes a) = true -> zkeys_ok (a_hosting a) = true ->
+  names_ok (AGENT_NAMED ++ map fst (a_attrs a)) = true ->
+  wire nan (py_of_agent a) = Ok (py_of_agent b) ->
+  (forall o, route b o = route a o) /\ (forall c, hosting_cost b c = hosting_cost a c)
+  /\ (forall k, getattr b k = getattr a k).
+Proof. exact agentdef_wire_keeps_costs_l. Qed.
+
+(* VariableWithCostDict (repaired code): keys = scalars with pairwise distinct JSON renderings *)
+Theorem roundtrip_variable_with_cost_dict : forall nan name domain costs init,
+  wf nan name = true -> wf nan domain = true -> wf nan init = true ->
+  cost_keys_ok (map fst costs) = true -> forallb (fun kv => wf nan (snd kv)) costs = true ->
+  wire nan (var_cost_dict name domain costs init) = Ok (var_cost_dict name domain costs init).
+Proof. exact roundtrip_variable_with_cost_dict_l. Qed.
+
+(* ordered-graph node (repaired code): the previous / next links survive *)
+Theorem roundtrip_ordered_node : forall nan variable constraints name links,
+  wf nan variable = true -> wf nan constraints = true -> wf nan name = true ->
+  (forall l, In l links -> In (fst (fst l)) ORDER_TYPES) ->
+  wire nan (ordered_node variable constraints name links) = Ok (ordered_node variable constraints name links).
+Proof. exact roundtrip_ordered_node_l. Qed.
+
+(* generic classes whose constructor converts an argument *)
+Theorem roundtrip_constraint_link : forall nan m name nodes,
+  wire nan (constraint_link m name nodes) = Ok (constraint_link m name nodes).
+Proof. exact roundtrip_constraint_link_l. Qed.
+
+Theorem roundtrip_domain : forall nan name dtype values,
+  wf nan name = true -> wf nan dtype = true -> forallb (wf nan) values = true ->
+  wire nan (domain_obj name dtype values) = Ok (domain_obj name dtype values).
+Proof. exact roundtrip_domain_l. Qed.
+
+(* ================= computation definitions of the four graph models ================= *)
+Theorem roundtrip_computation_def_pseudotree : forall nan variable constraints links name algo,
+  wf nan variable = true -> forallb (wf nan) constraints = true -> wf nan name = true ->
+  (forall l, In l links -> In (fst (fst l)) PT_TYPES) -> wf nan algo = true ->
+  let cd := comp_def (pt_node variable constraints links name) algo in wire nan cd = Ok cd.
+Proof. exact roundtrip_computation_def_pseudotree_l. Qed.
+
+Theorem roundtrip_computation_def_factor_graph : forall nan variable constraints_names factor name algo,
+  wf nan variable = true -> wf nan factor = true -> wf nan name = true -> wf nan algo = true ->
+  let cv := comp_def (fg_variable_node variable constraints_names name) algo in
+  let cf := comp_def (fg_factor_node factor name) algo in
+  wire nan cv = Ok cv /\ wire nan cf = Ok cf.
+Proof. exact roundtrip_computation_def_factor_graph_l. Qed.
+
+Theorem roundtrip_computation_def_hypergraph : forall nan variable constraints name algo,
+  wf nan variable = true -> forallb (wf nan) constraints = true -> wf nan name = true -> wf nan algo = true ->
+  let cd := comp_def (hg_node variable constraints name) algo in wire nan cd = Ok cd.
+Proof. exact roundtrip_computation_def_hypergraph_l. Qed.
+
+Theorem roundtrip_computation_def_ordered_graph : forall nan variable constraints name links algo,
+  wf nan variable = true -> wf nan constraints = true -> wf nan name = true ->
+  (forall l, In l links -> In (fst (fst l)) ORDER_TYPES) -> wf nan algo = true ->
+  let cd := comp_def (ordered_node variable constraints name links) algo in wire nan cd = Ok cd.
+Proof. exact roundtrip_computation_def_ordered_graph_l. Qed.
+
+(* non-vacuity of the deepened statements: a DPOP computation definition as deployed (variable with an
+   int domain held in a tuple, a matrix constraint, pseudo-tree links, AlgorithmDef with params), a
+   MaxSumMessage, an offering Mgm2OfferMessage, a VariableWithCostDict with int keys and an AgentDef
+   with an extra attribute all meet their hypotheses *)
+Example c15_deep_nonvacuous :
+  let dom := domain_obj (PStr "d") (PStr "level") [PInt 0; PInt 1; PInt 2] in
+  let v0 := variable_obj (PStr "v0") dom (PInt 1) in
+  let v1 := variable_obj (PStr "v1") dom PNone in
+  let c0 := PObj "pydcop.dcop.relations" "NAryMatrixRelation"
+              [("variables", PList [v0; v1]);
+               ("matrix", PList [PList [PFloat "0.5"; PInt 1; PInt 2]; PList [PInt 3; PInt 4; PInt 5];
+                                 PList [PInt 6; PInt 7; PFloat "8.25"]]);
+               ("name", PStr "c0")] in
+  let algo := algo_def (PStr "dpop") (PDict []) (PStr "min") in
+  let cd := comp_def (pt_node v0 [c0] [("children", "v0", "v1"); ("pseudo_children", "v0", "v2")] (PStr "v0")) algo in
+  wf false cd = true /\ wire false cd = Ok cd
+  /\ maxsum_ok false [(PInt 0, PFloat "1.5"); (PStr "R", PInt 3)] = true
+  /\ mgm2_ok false [(PTuple [PInt 0; PStr "R"], PFloat "2.5")] (PBool true) = true
+  /\ wf false (var_cost_dict (PStr "v2") dom [(PInt 0, PFloat "0.5"); (PInt 1, PInt 2)] PNone) = true
+  /\ wf false (agent_obj (PStr "a1") (PInt 1) (PDict [(PStr "a2", PInt 5)]) (PInt 0) (PDict [])
+                 [("capacity", PInt 100)]) = true.
+Proof. vm_compute. repeat split; reflexivity. Qed.
